@@ -148,6 +148,7 @@ CLAIMED.update({
               "TimeScale::picos its size, and the integer core of <FineDuration as Display>::fmt (region; float division and string building "
               "replaced by a data carrier) picks the unit by the stated rule (sub-ns shown in ns when > 3 figures), never overflows for "
               "precision <= 10, and passes exactly floor(value_in_unit * 10^p) (or whole days beyond DAY*10^p), which is < 2^53 for p <= 4. "
+              "Verus also proves util::fmt::format_f64 for EVERY rendering f64::to_string may produce (std string operations as stand-ins with assumed contracts): the text cut after max(0, sig - d) decimals, trailing zeros and a lone dot dropped, integer digits in full. "
               "Kani (complete): suffixes, from_picos on compiled code, util::fmt::scale_value's prefix for every f64. Kani (bounded): util::fmt::format_f64's "
               "truncation rule (integer digits in full, max(0, 4 - d) decimals, truncated, no trailing zeros, no lone dot) on renderings of 1, 3 and 5 integer "
               "digits, a dot and six fraction digits with every digit symbolic, f64::to_string being replaced by that rendering. Kani (complete): AnyCounter::display_throughput hands the whole 128-bit duration to the throughput formatter (exact below 2^53, on the same side of every power of two as the duration)."),
